@@ -83,6 +83,7 @@ class TcpClient(object):
         messages_mlat = []
         msg = []
         i = 0
+        start = 0  # position of the divider that opens the unfinished message
 
         # process the buffer until the last divider <esc> 0x1a
         # then, reset the self.buffer with the remainder
@@ -95,28 +96,17 @@ class TcpClient(object):
                 # special case where the last bit is 0x1a
                 msg.append(0x1A)
             elif self.buffer[i] == 0x1A:
-                if i == len(self.buffer) - 1:
-                    # special case where the last bit is 0x1a
-                    msg.append(0x1A)
-                elif len(msg) > 0:
+                if len(msg) > 0:
                     messages_mlat.append(msg)
                     msg = []
+                start = i
             else:
                 msg.append(self.buffer[i])
             i += 1
 
-        # save the reminder for next reading cycle, if not empty
-        if len(msg) > 0:
-            reminder = []
-            for i, m in enumerate(msg):
-                if (m == 0x1A) and (i < len(msg) - 1):
-                    # rewind 0x1a, except when it is at the last bit
-                    reminder.extend([m, m])
-                else:
-                    reminder.append(m)
-            self.buffer = [0x1A] + msg
-        else:
-            self.buffer = []
+        # keep the raw bytes of the unfinished message (from its divider on,
+        # escapes untouched) for the next reading cycle
+        self.buffer = self.buffer[start:]
 
         # extract messages
         messages = []
@@ -170,6 +160,7 @@ class TcpClient(object):
         messages_mlat = []
         msg = []
         i = 0
+        start = 0  # position of the divider that opens the unfinished message
 
         # process the buffer until the last divider <esc> 0x1a
         # then, reset the self.buffer with the remainder
@@ -182,28 +173,17 @@ class TcpClient(object):
                 # special case where the last bit is 0x1a
                 msg.append(0x1A)
             elif self.buffer[i] == 0x1A:
-                if i == len(self.buffer) - 1:
-                    # special case where the last bit is 0x1a
-                    msg.append(0x1A)
-                elif len(msg) > 0:
+                if len(msg) > 0:
                     messages_mlat.append(msg)
                     msg = []
+                start = i
             else:
                 msg.append(self.buffer[i])
             i += 1
 
-        # save the reminder for next reading cycle, if not empty
-        if len(msg) > 0:
-            reminder = []
-            for i, m in enumerate(msg):
-                if (m == 0x1A) and (i < len(msg) - 1):
-                    # rewind 0x1a, except when it is at the last bit
-                    reminder.extend([m, m])
-                else:
-                    reminder.append(m)
-            self.buffer = [0x1A] + msg
-        else:
-            self.buffer = []
+        # keep the raw bytes of the unfinished message (from its divider on,
+        # escapes untouched) for the next reading cycle
+        self.buffer = self.buffer[start:]
 
         # extract messages
         messages = []
